@@ -5,6 +5,7 @@ package main
 // "every registered RPC method has a policy entry" (C07), codec type obligations (C08).
 
 import (
+	"reflect"
 	"fmt"
 	"go/ast"
 	"go/token"
@@ -356,6 +357,91 @@ func (p *Program) codecObligations(d *Directive) (items []specialItem, rep *Func
 			rep.NObl++
 		}
 	}
+	// encoded names: within one record (embedded structs flattened, as both encoders do) no two fields may carry the
+	// same name in a format - the encoders keep one of them and silently never write the other
+	flatNames := func(t types.Type, key string) (names []string, fields []string) {
+		var rec func(t types.Type, prefix string, depth int)
+		rec = func(t types.Type, prefix string, depth int) {
+			stt, ok := t.Underlying().(*types.Struct)
+			if !ok || depth > 4 {
+				return
+			}
+			for i := 0; i < stt.NumFields(); i++ {
+				f := stt.Field(i)
+				tag := reflect.StructTag(stt.Tag(i)).Get(key)
+				tname := strings.Split(tag, ",")[0]
+				if tname == "-" {
+					continue
+				}
+				if f.Embedded() && tname == "" {
+					ft := f.Type()
+					if pt, isP := ft.Underlying().(*types.Pointer); isP {
+						ft = pt.Elem()
+					}
+					if _, isS := ft.Underlying().(*types.Struct); isS && !selfDecoding(f.Type()) {
+						rec(ft, prefix+f.Name()+".", depth+1)
+						continue
+					}
+				}
+				if !f.Exported() {
+					continue
+				}
+				if tname == "" {
+					tname = f.Name()
+				}
+				names = append(names, tname)
+				fields = append(fields, prefix+f.Name())
+			}
+		}
+		rec(t, "", 0)
+		return
+	}
+	seenRec := map[string]bool{}
+	var checkNames func(label string, t types.Type, depth int)
+	checkNames = func(label string, t types.Type, depth int) {
+		stt, ok := t.Underlying().(*types.Struct)
+		if !ok || depth > 4 || seenRec[types.TypeString(t, nil)] {
+			return
+		}
+		seenRec[types.TypeString(t, nil)] = true
+		for _, key := range []string{"codec", "json"} {
+			names, fields := flatNames(t, key)
+			goal, desc := "true", "record "+label+": the "+key+" names of its fields (embedded records flattened) are distinct"
+			first := map[string]string{}
+			for i, n := range names {
+				if prev, dup := first[n]; dup {
+					goal = "false"
+					desc += ": " + prev + " and " + fields[i] + " are both encoded as \"" + n + "\" (one of them is never written)"
+					break
+				}
+				first[n] = fields[i]
+			}
+			o := &Obl{Name: fmt.Sprintf("%s#distinct-names(%s,%s)", name, label, key), Class: "codec-type", PC: st.pc, Goal: goal, Desc: desc, Func: name, Pos: token.Position{Filename: d.File, Line: d.Line}}
+			x.vc.addObl(o)
+			items = append(items, specialItem{x.vc, o})
+			rep.NObl++
+		}
+		for i := 0; i < stt.NumFields(); i++ {
+			ft := stt.Field(i).Type()
+			for {
+				switch u := ft.Underlying().(type) {
+				case *types.Pointer:
+					ft = u.Elem()
+					continue
+				case *types.Slice:
+					ft = u.Elem()
+					continue
+				case *types.Map:
+					ft = u.Elem()
+					continue
+				}
+				break
+			}
+			if n, ok := ft.(*types.Named); ok && n.Obj().Pkg() != nil && strings.HasPrefix(n.Obj().Pkg().Path(), p.modPath) && !selfDecoding(ft) {
+				checkNames(n.Obj().Name(), ft, depth+1)
+			}
+		}
+	}
 	for _, tn := range strings.Fields(d.Args) {
 		obj, ok := pk.Types.Scope().Lookup(tn).(*types.TypeName)
 		if !ok {
@@ -363,8 +449,9 @@ func (p *Program) codecObligations(d *Directive) (items []specialItem, rep *Func
 			return nil, rep
 		}
 		walk(tn, obj.Type(), 0)
+		checkNames(tn, obj.Type(), 0)
 	}
-	rep.Dropped = append(rep.Dropped, "struct tags, omitempty and custom (Un)Marshal method bodies are not interpreted: only the decodability of each field's static type is decided")
+	rep.Dropped = append(rep.Dropped, "omitempty and custom (Un)Marshal method bodies are not interpreted: the decodability of each field's static type and the distinctness of the encoded field names are decided")
 	delete(p.tmpInit, x)
 	delete(p.tmpGlobals, x)
 	return
